@@ -223,10 +223,21 @@ def is_panic(x):
     return isinstance(x, dict) and "panic" in x
 
 
+_TYPE = r"(?:bit|int|string|code|dag|unknown|any|uninitialized|bits<\d+>|list<[^' ;]*>)"
+
+
+def _norm_type(t):
+    """bits<4> -> bits<N>; class names -> C (inside list<> too)"""
+    t = re.sub(r"\d+", "N", t)
+    return re.sub(r"\b(?!bits\b|bit\b|int\b|string\b|code\b|dag\b|list\b|unknown\b|any\b|uninitialized\b|N\b)[A-Za-z_][A-Za-z_0-9]*", "C", t)
+
+
 def norm_msg(m):
-    m = re.sub(r"'[^']*'", "'_'", m)
+    """Message template: names dropped, types kept by kind (`bits<N>`, `list<C>`), numbers -> N."""
+    # quoted types stay, other quoted text is a name
+    m = re.sub(r"'([^']*)'", lambda q: "'%s'" % _norm_type(q.group(1)) if re.search(r"type '$", m[:q.start() + 1]) else "'_'", m)
     m = re.sub(r": [A-Za-z_][A-Za-z_0-9.]*$", ": _", m)
-    m = re.sub(r"\b(found|of|and|expected type|expected) (list<[^ ]*>|bits<\d+>|[A-Za-z_][A-Za-z0-9_]*)", r"\1 T", m)
+    m = re.sub(r"\b(found|type of|and|expected type|expected) (list<[^ ;]*>|bits<\d+>|[A-Za-z_][A-Za-z0-9_]*)", lambda q: "%s %s" % (q.group(1), _norm_type(q.group(2))), m)
     m = re.sub(r"\d+", "N", m)
     return m
 
@@ -296,7 +307,7 @@ def check_c05(p, a, informational=True):
             if not any(f == u["file"] and s <= u["start"] and u["end"] <= e for f, s, e, m in diags):
                 out.append(disc("C05", "out-of-scope name not reported", why, dict(use=u_brief(u))))
             continue
-        if not u["visited"] and not informational:
+        if u["visited"] is None or (not u["visited"] and not informational):
             continue
         clause = "goto" if u["visited"] else "goto (position not walked by the indexer)"
         if got != u["target"]:
@@ -310,6 +321,8 @@ def check_c05(p, a, informational=True):
             if (tuple(g2) if g2 and not is_panic(g2) else None) != u["target"]:
                 out.append(disc("C05", "goto at last character differs", u["tag"], dict(use=u_brief(u), got=g2)))
     for d in p.decls:
+        if d["decl"].info.get("unchecked"):
+            continue
         f, s, e = d["loc"]
         r = a["references"].get((f, s))
         if is_panic(r):
@@ -321,7 +334,8 @@ def check_c05(p, a, informational=True):
             continue
         got = {tuple(x) for x in r}
         want_req = {(x[0], x[1], x[2]) for x in d["uses"] if x[3]}
-        want_opt = {(x[0], x[1], x[2]) for x in d["uses"] if not x[3]}
+        want_opt = {(x[0], x[1], x[2]) for x in d["uses"] if x[3] is False}
+        silent = {(x[0], x[1], x[2]) for x in d["uses"] if x[3] is None}     # may or may not be listed
         tags = {(x[0], x[1], x[2]): x[4] for x in d["uses"]}
         for m in sorted(want_req - got):
             construct = "let-override-target" if lands.get(m) in override_at else tags[m]
@@ -329,7 +343,7 @@ def check_c05(p, a, informational=True):
         if informational:
             for m in sorted(want_opt - got):
                 out.append(disc("C05", "references: use missing (position not walked by the indexer)", tags[m], dict(decl=d_brief(d), missing=m)))
-        for m in sorted(got - want_req - want_opt):
+        for m in sorted(got - want_req - want_opt - silent):
             what = "the-declaration-itself" if m == d["loc"] else classify_site(p, m)
             out.append(disc("C05", "references: surplus", "%s<-%s" % (where, what), dict(decl=d_brief(d), surplus=m)))
     return out
@@ -370,9 +384,15 @@ def cmp_outline(exp, act, parent_kind, out, file):
     ek = [key(n) for n in exp]
     ak = [key(n) for n in act]
     eset, aset = set(ek), set(ak)
+    relisted = False
     for n in exp:
-        if key(n) not in aset:
-            out.append(disc("C18", "outline: symbol missing", "%s@%s" % (n["kind"], n.get("where") or parent_kind) if n["kind"] not in ("Field", "TemplateArgument") else "%s-of-%s" % (n["kind"], parent_kind),
+        if key(n) not in aset and not n.get("optional"):
+            construct = "%s@%s" % (n["kind"], n.get("where") or parent_kind) if n["kind"] not in ("Field", "TemplateArgument") else "%s-of-%s" % (n["kind"], parent_kind)
+            # a field declared in this body and overridden by `let` in the same body: listed at the `let` instead?
+            if n["kind"] == "Field" and any(x.get("optional") and x["name"] == n["name"] and key(x) in aset for x in exp):
+                construct = "field-declared-and-let-in-the-same-body"
+                relisted = True
+            out.append(disc("C18", "outline: symbol missing", construct,
                             dict(file=file, want=dict(kind=n["kind"], name=n["name"], range=n["range"]))))
     for n in act:
         if key(n) not in eset:
@@ -382,7 +402,7 @@ def cmp_outline(exp, act, parent_kind, out, file):
     ca = [k for k in ak if k in eset]
     if len(set(ca)) != len(ca):
         out.append(disc("C18", "outline: symbol listed twice", parent_kind, dict(file=file, got=ca)))
-    elif ce != ca:
+    elif ce != ca and not relisted:
         out.append(disc("C18", "outline: not in source order", parent_kind, dict(file=file, want=ce, got=ca)))
     amap = {}
     for n in act:
@@ -462,6 +482,8 @@ def check_c19(p, a, informational=True):
         if k in seen:
             continue
         seen.add(k)
+        if h.get("visited", True) is None:
+            continue
         g = a["goto"].get(k)
         hv = a["hover"].get(k)
         if is_panic(hv):
@@ -478,7 +500,10 @@ def check_c19(p, a, informational=True):
             continue
         want = d.signature()
         if hv["signature"] != want:
-            ok = False
+            ok = bool(d.info.get("type_any")) and hv["signature"].endswith(" " + d.name)
+            if d.kind == "field" and d.owner.info.get("unchecked"):
+                # `def NAME#_y` in a multiclass: what the owner is called is implementation defined
+                ok = re.fullmatch(re.escape(d.ty.text()) + r" \w+::" + re.escape(d.name), hv["signature"]) is not None
             if d.kind == "field" and d.owner.name == "<anonymous>":
                 # the name of an anonymous record is implementation defined
                 ok = re.fullmatch(re.escape(d.ty.text()) + r" anonymous_\d+::" + re.escape(d.name), hv["signature"]) is not None
@@ -558,8 +583,14 @@ def check_c13_sound(p, a):
     names only diagnostics at those names."""
     out = []
     oos = [(u["file"], u["start"], u["end"]) for u in p.uses if u["target"] is None]
+    kf = getattr(p, "known_false_sites", [])
     for f, s, e, m in all_diags(a):
         if any(f == of and s <= os_ and oe <= e for of, os_, oe in oos):
+            continue
+        # constructs with a KNOWN false diagnostic: reported under the fixed signature of the finding
+        hit = [k for k in kf if k["file"] == f and not (e <= k["start"] or k["end"] <= s)]
+        if hit:
+            out.append(disc("C13", "false diagnostic", hit[0]["kind"], dict(file=f, range=(s, e), message=m)))
             continue
         out.append(disc("C13", "false diagnostic", "%s@%s" % (norm_msg(m), site_context(p, f, s, e)),
                         dict(file=f, range=(s, e), message=m)))
@@ -594,11 +625,87 @@ def check_fault(fp, a, base_diags=()):
         if d[0] not in fp.touched and d not in base:
             out.append(disc("C13", "diagnostic in a file the fault does not touch", name,
                             dict(fault=fault_brief(fp), diagnostic=d)))
-    return out
+    return rename_causes(fp.base, out)
 
 
 def fault_brief(fp):
     return dict(cls=fp.cls, sub=fp.sub, site=fp.site, edit=fp.fault["edit"], check=fp.check)
+
+
+# constructs named after one cause (defects found with the widened generator; see ROUND5.md)
+CAUSES = {
+    "bit-vs-bits1": "bit and bits<1> are not interconvertible for the indexer (`bits<1> z = w{0};`, `bits<1> b = c;` with bit c, "
+                    "`bit c = o;` with bits<1> o, lists of them, template arguments): false 'incompatible' diagnostics; llvm-tblgen accepts",
+    "field-declared-and-let-in-the-same-body": "a field declared in a body and overridden by `let` in the same body (`bits<16> Inst; let Inst{15-12} = opc;`) "
+                                               "is listed in the outline once, with the range of the LAST `let` identifier instead of the declaring identifier",
+    "defm-class-in-multiclass": "`defm x : M<1>, C<2>;` INSIDE a multiclass: the class after the multiclasses is looked up as a multiclass "
+                                "('multiclass not found: C'); its arguments are not indexed (no goto, no hints, faults in them unreported)",
+    "bits-literal-with-multibit-elements": "a bits literal `{ x{1-0}, 0b10, y }` is typed by the NUMBER of its elements, not by the sum of their widths: "
+                                           "false 'bits<4> is incompatible with bits<2>'",
+    "list-paste": "`[1] # [2, 3]` (paste of two lists, a list in TableGen) is typed string: false 'incompatible' diagnostics",
+    "def-typed-join": "!if / !listconcat over two different defs of one class (or a def and a class value): 'inconsistent types d1 and d2 for !if', "
+                      "'expected list<d1>, found list<d2>' - the type of a def name is the def itself and two defs never fit each other",
+}
+
+
+def _types_in(msg):
+    """The two types a type-mismatch message talks about (None if it is not one)."""
+    for rx in (r"of type '([^']+)' is incompatible with type '([^']+)'", r"is type of ([^;]+); expected type (.+)$",
+               r"expected ([^,]+), found (.+)$", r"inconsistent types (\S+) and (\S+) for"):
+        m = re.search(rx, msg)
+        if m:
+            return m.group(1).strip(), m.group(2).strip()
+    return None
+
+
+def named_cause(p, d):
+    """A fixed construct name for discrepancies whose cause is one of the defects found by this generator
+    (every other discrepancy keeps its generic construct)."""
+    det = d["detail"]
+    # where is it?
+    loc = None
+    if "range" in det and "file" in det:
+        loc = (det["file"], det["range"][0], det["range"][1])
+    elif "use" in det:
+        loc = (det["use"]["file"], det["use"]["start"], det["use"]["end"])
+    elif "missing" in det and isinstance(det["missing"], (list, tuple)) and len(det["missing"]) == 3:
+        loc = tuple(det["missing"])
+    elif "want" in det and "file" in det and isinstance(det["want"], (list, tuple)) and det["want"] and isinstance(det["want"][0], int):
+        loc = (det["file"], det["want"][0], det["want"][0])
+    elif "at" in det:
+        loc = (det["at"][0], det["at"][1], det["at"][1])
+    elif "decl" in det and "loc" in det["decl"]:
+        loc = tuple(det["decl"]["loc"])
+    elif "fault" in det:
+        f = det["fault"]
+        loc = (f["site"][0], f["edit"][0], f["edit"][0])
+    if loc is not None:
+        for r in getattr(p, "regions", []):
+            if r["file"] != loc[0]:
+                continue
+            if r.get("mode", "inside") == "inside" and r["start"] <= loc[1] and loc[2] <= r["end"]:
+                return r["cause"]
+            if r.get("mode") == "contains" and d["clause"] == "false-diagnostic" and loc[1] <= r["start"] and r["end"] <= loc[2]:
+                return r["cause"]
+    if d["clause"] == "false-diagnostic" and "message" in det:
+        t = _types_in(det["message"])
+        if t and t[0] != t[1] and t[0].replace("bits<1>", "bit") == t[1].replace("bits<1>", "bit"):
+            return "bit-vs-bits1"
+    if d["clause"] == "hover-signature" and isinstance(det.get("want"), str) and isinstance(det.get("got"), str) and \
+            det["want"].replace("bits<1>", "bit") == det["got"].replace("bits<1>", "bit"):
+        return "bit-vs-bits1"
+    return None
+
+
+def rename_causes(p, ds):
+    for d in ds:
+        if d["sig"] in KNOWN:
+            continue
+        c = named_cause(p, d)
+        if c:
+            d["construct"] = c
+            d["sig"] = "%s|%s|%s" % (d["prop"], d["clause"], c)
+    return ds
 
 
 def check_program(p, a, informational=False):
@@ -613,11 +720,14 @@ def check_program(p, a, informational=False):
     out += check_c18(p, a)
     out += check_c19(p, a, informational)
     out += check_c13_sound(p, a)
-    return out
+    return rename_causes(p, out)
 
 
 # the signatures of the defects that are known to stay (exact strings)
 KNOWN = {
+    "C13|false-diagnostic|forward_class": "a class declared first (`class B;`) and defined later is two class symbols: a value of the defined B "
+                                          "given to a field typed B before the definition is reported as incompatible",
+    "C13|false-diagnostic|defm_record_use": "a record created by a defm (`dm_x`) is unknown to the indexer: 'symbol not found' on a well-formed program",
     "C05|goto|let-override-target": "D06 go-to-definition of a field use lands on a `let` override identifier",
     "C05|references-missing|let-override-target": "D06 such a use is missing from find-references of the declaring identifier",
     "C13|missed-fault|let-in-unknown-field": "D12 `let nosuch = v in ...` is not reported",
